@@ -68,7 +68,7 @@ CHECKS.update({
         text=("BearerDefs.tla holds the abstract product of 81 600 cases (header shapes x verifier outcomes incl. error-with-info x scope lists incl. duplicates x expiry around the skew boundary x options), "
               "the code-shaped Expected and the declarative property Holds (iff admission, status by cause, challenge content, same token info). TLC checks "
               "Holds(c, Expected(c)) on the whole product and exports it; every case is run through the real middleware under a frozen clock and the TLA+ monitor "
-              "evaluates Holds on the real outcome. Exhaustive in both tiers."),
+              "evaluates Holds on the real outcome. Exhaustive in both tiers. Every case is presented twice to one middleware instance whose verifier returns the same cached TokenInfo, and the handler must see the verifier's info value by value."),
         design_ref="DESIGN.md section 6 C14",
         note="Trusted: TLC; concretisation of abstract header/expiry classes in the harness; synctest frozen clock.",
         technique="TLA+ decision table enumerated by TLC; complete product run on the real middleware; TLA+ monitor",
@@ -102,7 +102,7 @@ CHECKS.update({
               "relation classes: exact/slash, near misses (port, scheme, userinfo, query, fragment, host suffix, extra path segment, strict path prefix, unrelated) which are mismatches, and "
               "case/trailing-dot variants which are not judged except for iss; the harness concretises each class and re-derives it from the concrete strings. A cover of every labelled edge plus seeded behaviours (quick), and every terminal "
               "behaviour of a reduced configuration plus 120k samples (thorough), are replayed on the real Authorize through a fake RoundTripper and scripted code fetcher; every "
-              "observation is judged by the TLA+ monitor OAuthFlowMon."),
+              "observation is judged by the TLA+ monitor OAuthFlowMon. URLs range over scheme class (https, http, script-capable) x authority class (loopback, other, none) x form (hierarchical, opaque) in the challenge's resource_metadata, every URL field of protected-resource and authorization-server metadata and the registration response; the code's two checks (scheme deny-list; https-or-loopback) are modelled separately and a witness configuration without the deny-list must violate NoScriptSchemes."),
         design_ref="DESIGN.md section 6 C15",
         note="Trusted: TLC; the harness' URL classification and provenance map; the harness' issuer-relation classifier (c15Rel); finite variant sets; no TLS and no redirects; x/oauth2 sends the token request it is asked to.",
         technique="TLA+ spec + TLC exhaustive; state-graph transition cover and behaviour enumeration replayed on the real code; TLA+ monitor",
@@ -114,7 +114,7 @@ CHECKS.update({
               "output, valid, boundary and reflected cases + 3000 samples; thorough: all) is executed as a real tools/call through mcp.AddTool, a real Server and a real Client, and "
               "every outcome is judged by the same TLA+ predicates. The output side also states that valid output is returned (ValidOutputReturned), over pointer Out types "
               "(*struct, *int, nil handler results) crossed with four SchemaCache arrangements (no cache, hit after an earlier registration, hit through the element-type sibling, "
-              "pointer registration filling the cache)."),
+              "pointer registration filling the cache). TypedToolConc.tla adds the interleaving state machine of 2-3 calls in flight on one server (invoke / produce / respond; PerCallOutput, NonInterference; a shared-scratch what-if must fail); all complete schedules (10 and 280) are pinned on the real server by handler and middleware gates in a synctest bubble and every call's structured content and text are judged against its own case."),
         design_ref="DESIGN.md section 6 C16",
         note="Trusted: TLC + CommunityModules Json; the TLA+ schema exporter; the harness' tagged-JSON codec and struct projections; the in-memory transport.",
         technique="TLA+ decision table with an independent validator; TLC-enumerated product; TLA+ monitor over real outcomes",
@@ -152,7 +152,7 @@ CHECKS.update({
 CHECKS.update({
     "C09": dict(
         engine="StreamCli", category="model_checking",
-        text=('StreamCli.tla states C09 over observations (ExactlyOnceInOrder, ResumeCursor, RealResponseWithinBudget, CleanFailure, BoundedRetries, NoTruncatedSurfaced) and models handleSSE/processStream/connectSSE/scanEvents per body and per reconnect attempt; reconnect answers are values (200, transport error, each of the transient statuses 429/500/502/503/504, non-transient 404/403/501) and the server may be stuck (every resumption 200 with a body that ends at offset 0, for ever). TLC proves the invariants and termination exhaustively for the repaired design (also against the stuck server and over the whole status class) and exports every single-cut and two-cut behaviour, a three-cut family, interleaved progress scripts, runs of 1..MaxRetries+1 empty resumed bodies (MaxRetries 1-3) with a recovering and with a stuck server, and every answer sequence over the status class. These behaviours, plus EVERY byte offset of reference SSE bodies x {read error, clean EOF}, are executed on a real Client/StreamableClientTransport with a scripted RoundTripper under synctest; the TLA+ monitor StreamCliMon judges each observation.'),
+        text=('StreamCli.tla states C09 over observations (ExactlyOnceInOrder, ResumeCursor, RealResponseWithinBudget, CleanFailure, BoundedRetries, NoTruncatedSurfaced) and models handleSSE/processStream/connectSSE/scanEvents per body and per reconnect attempt; reconnect answers are values (200, transport error, each of the transient statuses 429/500/502/503/504, non-transient 404/403/501) and the server may be stuck (every resumption 200 with a body that ends at offset 0, for ever). TLC proves the invariants and termination exhaustively for the repaired design (also against the stuck server and over the whole status class) and exports every single-cut and two-cut behaviour, a three-cut family, interleaved progress scripts, runs of 1..MaxRetries+1 empty resumed bodies (MaxRetries 1-3) with a recovering and with a stuck server, and every answer sequence over the status class. These behaviours, plus EVERY byte offset of reference SSE bodies x {read error, clean EOF}, are executed on a real Client/StreamableClientTransport with a scripted RoundTripper under synctest; the TLA+ monitor StreamCliMon judges each observation. End to end: a real Client/StreamableClientTransport and a real StreamableHTTPHandler with an event store exchange messages through a scripted in-process network (cuts at and inside events, failed or held reconnects, server-initiated stream close); StreamE2E.tla - the abstract composed model, checked exhaustively for 2 streams, <= 4 writes, <= 3 cuts, MaxRetries 2 - generates the scenarios and is run in lock step with the real execution (drift), and the monitor StreamE2EMon attributes every deviation to the server (C08.E2E.*), the client (C09.E2E.*) or both.'),
         design_ref="DESIGN.md section 6 C09, 5.5",
         note="Trusted: TLC; the scripted server's resume semantics; the harness' byte-to-class classifier (cross-checked by zero drift); the conservative reading of the retry budget; synctest quiescence. A hang = call pending after one virtual hour of a stuck server; BoundedRetries counts fruitless bodies leniently (a content-complete event at a clean EOF may count as progress).",
         technique="TLA+ spec + TLC exhaustive design check; TLC-generated fault scripts and a complete byte-offset enumeration replayed on the real client under virtual time; TLA+ monitor",
@@ -163,7 +163,7 @@ CHECKS.update({
               "encode/decode rules as code-shaped expectations; TLC checks the tables' design and exports the complete products (67k cases). The Go harness concretises every class with "
               "seeded values, runs the real EncodeMessage/DecodeMessage, ioConn over pipes, writeEvent/scanEvents, the protocol types' JSON methods and real sessions, and records "
               "per-member comparison results that the TLA+ monitor CodecMon judges (RoundTrip, Preserve, CaseSensitive, RequiredPresent, NeverPanics); byte-level fidelity itself is "
-              "compared in Go, classes (not all values) are exhaustive; plus seeded fuzzing of ten decoders."),
+              "compared in Go, classes (not all values) are exhaustive; plus seeded fuzzing of ten decoders. CodecWrite.tla is a state machine of k concurrent writers over a non-atomic io.Writer (whole frames on every plan of writers x pieces x interleaving; it must tear without the guard) whose plans are driven on the real ioConn over a gated chunking writer (FramesIntact); decode-lifetime and burst tables state that a decoded message stays intact however its input buffer is reused afterwards (Lifetime.*, BurstIntact)."),
         design_ref="DESIGN.md section 6 C19, section 7",
         note="Trusted: TLC; the harness' field-wise JSON comparator (exact numbers via big.Rat); seeded representatives per class; reader-goroutine panics surface only as a process crash.",
         technique="TLA+ decision tables enumerated by TLC; all cases replayed on the real codec and framing; TLA+ monitor; seeded decoder fuzzing",
@@ -178,7 +178,7 @@ CHECKS.update({
               "replay) and is model-checked exhaustively for resumption exactness, dense and stable event ids, store-before-deliver and obtainability of the final response (1 session, "
               "request and standalone stream, <=3 writes, <=3 resumes, writes and replays held inside the lock, with and without priming events). TLC-generated environment scripts "
               "(transition cover, simulation) plus seeded random ones run on the real StreamableHTTPHandler under synctest; every SSE event of every exchange is judged by the TLA+ "
-              "monitor StreamSrvMon against the ground-truth append order, and every recorded trace must be explained step by step by the specification."),
+              "monitor StreamSrvMon against the ground-truth append order, and every recorded trace must be explained step by step by the specification. End to end: a real Client/StreamableClientTransport and a real StreamableHTTPHandler with an event store exchange messages through a scripted in-process network (cuts at and inside events, failed or held reconnects, server-initiated stream close); StreamE2E.tla - the abstract composed model, checked exhaustively for 2 streams, <= 4 writes, <= 3 cuts, MaxRetries 2 - generates the scenarios and is run in lock step with the real execution (drift), and the monitor StreamE2EMon attributes every deviation to the server (C08.E2E.*), the client (C09.E2E.*) or both."),
         design_ref="DESIGN.md section 6 C08, 5.4", note=_stream_note,
         technique="TLA+/TLC exhaustive model checking; transition-cover and simulation replay on the real handler; TLA+ monitor; strict trace validation",
     ),
@@ -207,7 +207,7 @@ CHECKS.update({
         text=("Notify.tla - the debounce timer states (incl. the fired-but-not-run window), the legacy and subscribed fan-out, the capability gate, URI subscriptions, single subscriptions/listen requests over several URIs with the SubscribeHandler refusing an environment-chosen subset (nothing of a failed request stays subscribed: SubsOnlyCurrent), ownership of list-changed subscriptions by the listen that made them, session lifecycle, "
               "and the paged client cache with a generation-checked two-step fill and two-step notification handling - is checked exhaustively by TLC for all six clauses on bounded configurations, and bound to "
               "the real mcp.Server and mcp.Client by replaying TLC-generated environment scripts (exhaustive timing-window, cache-race, subscription and several-URI-listen sets incl. a held UnsubscribeHandler, seeded simulations; the repaired defects stay as regression scenarios and as switched-off witnesses TLC must still refute) under synctest, with "
-              "the TLA+ monitor NotifyMon judging the observation log; a per-step comparison of server maps, the pending-timer reference and delivery counts is reported as drift."),
+              "the TLA+ monitor NotifyMon judging the observation log; a per-step comparison of server maps, the pending-timer reference and delivery counts is reported as drift. The model also carries feature-set sizes incl. empty and where listChanged comes from (explicit entry / Has* option / inferred from the registered features) with entitlement = what the session was told at its handshake, and the cold-cache race (first call, cold again after invalidation / TTL expiry; witness ColdBump=FALSE) for one page and several."),
         design_ref="DESIGN.md section 6 C18, 5.8",
         note="Trusted: TLC; synctest's virtual clock; net.Pipe in-memory transports; the harness middleware gates and log order; the in-package state snapshot reader and the in-package call of ClientSession.subscriptionsListen for several-URI requests.",
         technique="TLA+ spec + TLC exhaustive; lead replay; scenario conformance on real sessions with a TLA+ monitor",
